@@ -71,7 +71,17 @@ def reused_adjacency_stream(ctx, n):
         nd = rng.choice([1, 1, 2, 2, 3])
         axes = [a for a in range(nd) if rng.random() < 0.6] or [rng.randrange(nd)]
         arg = axes[0] if (len(axes) == 1 and rng.random() < 0.5) else axes
-        nb = periodic_neighbours(arg)
+        if isinstance(arg, list) and rng.random() < 0.5:
+            # the caller's work list: handed over, then edited (another axis appended, or emptied) - the adjacency
+            # object keeps the axes it was made with
+            work = list(arg)
+            nb = periodic_neighbours(work)
+            if rng.random() < 0.5:
+                work.append(rng.randrange(nd))
+            else:
+                del work[:]
+        else:
+            nb = periodic_neighbours(arg)
         history = []
         for step in range(rng.randint(2, 4)):
             shape = [rng.randint(1, 9) if nd == 1 else rng.randint(1, 5) for _ in range(nd)]
